@@ -56,10 +56,12 @@ def run(rep, tier):
         rep.configs.append(cname)
         rep.units.update(units)
         for alg in ALGS:
-            for fam in ("oneshot", "incremental", "masked", "multipacket"):
+            for fam in ("oneshot", "incremental", "masked", "multipacket", "masked-rerandomized"):
                 sh = shapes(tier)
                 if fam == "masked" and tier == "quick":
                     sh = [(0, 0), (1, 9), (8, 16), (17, 33)]
+                if fam == "masked-rerandomized":
+                    sh = [(0, 0), (1, 9)] if tier == "quick" else [(0, 0), (1, 9), (8, 16), (17, 33)]
                 if fam == "multipacket":
                     # (adlen, mlen) of the first packet; the following packets are fixed (see check_shape)
                     sh = [(0, 0), (1, 3), (8, 16), (3, 17)] if tier == "quick" else \
@@ -87,7 +89,7 @@ def _worker(item):
             r.broken.append("C01.M %s %s %s ad=%d m=%d: %s" % (cname, alg, fam, adlen, mlen, traceback.format_exc()[-600:]))
             continue
         fn = "%s_%s" % (ALGS[alg][0], {"oneshot": "aead_encrypt", "incremental": "aead_encrypt_block", "masked": "masked_aead_encrypt",
-                                "multipacket": "aead_start"}[fam])
+                                "multipacket": "aead_start", "masked-rerandomized": "masked_aead_encrypt"}[fam])
         if bad:
             f = m.funcs.get(fn)
             r.violation("C01.M", "%s:%s" % (fn, bad[0]), f.src if f else fn,
@@ -146,19 +148,29 @@ def check_shape(m, layout, maxs, alg, fam, adlen, mlen):
             if d:
                 return ("chunks", "with the plaintext split as %s the ciphertext||tag differs at %s" % (chunks, d))
         return None
-    if fam == "masked":
+    if fam in ("masked", "masked-rerandomized"):
         R = modes.Run(m, layout, maxs)
         K, N = R.buf("K", klen), R.buf("N", 16)
         A, M = R.buf("A", adlen), R.buf("M", mlen)
         mk = R.obj(R.struct_size("ascon_masked_key_%s_t" % ("160" if alg == "80pq" else "128")))
         R.call("ascon_masked_key_%s_init" % ("160" if alg == "80pq" else "128"), mk, K)
+        if fam == "masked-rerandomized":
+            # a key object that was re-masked (twice) still stands for the same key
+            R.call("ascon_masked_key_%s_randomize" % ("160" if alg == "80pq" else "128"), mk)
+            R.call("ascon_masked_key_%s_randomize" % ("160" if alg == "80pq" else "128"), mk)
+            kx = R.out(klen)
+            R.call("ascon_masked_key_%s_extract" % ("160" if alg == "80pq" else "128"), mk, kx)
+            if R.read(kx, klen) != sponge.sym_bytes("K", klen):
+                return ("key", "a masked key that was re-randomised no longer extracts to the original key "
+                        "(for every value of the masking randomness)")
         c, clen = R.out(mlen + 16), R.out(8)
         R.call(prefix + "_masked_aead_encrypt", c, clen, M, mlen, A, adlen, N, mk)
         wantC, wantT = R.spec.aead_encrypt(alg, sponge.sym_bytes("K", klen), sponge.sym_bytes("N", 16),
                                            sponge.sym_bytes("A", adlen), sponge.sym_bytes("M", mlen))
         d = modes.first_diff(R.read(c, mlen + 16), tuple(wantC) + tuple(wantT))
         if d:
-            return ("output", "ciphertext||tag differs at %s (for every value of the masking randomness)" % d)
+            return ("output", "ciphertext||tag%s differs at %s (for every value of the masking randomness)" % (
+                " computed with a re-randomised key object" if fam == "masked-rerandomized" else "", d))
         if R.read_int(clen, 8) != mlen + 16:
             return ("clen", "reported length is %s" % R.read_int(clen, 8))
         return None
